@@ -96,6 +96,8 @@ func newWorld(run *evid.Run, prefix string) *world {
 	w.recd = rec.New(a)
 	w.sub = model.NewEnv(ocifilter.Sub(w.recd.Interface(), prefix))
 	w.twin = model.NewEnv(b)
+	// listings are ranged over twice (same Seq value): the second pass has to give the same answer
+	w.sub.Reiterate, w.twin.Reiterate = true, true
 	return w
 }
 
